@@ -2,7 +2,10 @@ package main
 
 // Workload generator for C11.
 
-import "strings"
+import (
+	"strings"
+	"unicode/utf8"
+)
 
 type targetSpec struct {
 	kind   string
@@ -214,8 +217,91 @@ func (g *gen) c11Base(hook bool) []Op {
 	return ops
 }
 
+// cleanPiece: valid UTF-8 without marker runes, ending (and starting)
+// with a rune drawn from a per-op window of the rune space, so that over
+// many runs every kind of final byte meets every kind of seam.
+func (g *gen) cleanPiece(win rune) string {
+	s := strings.ToValidUTF8(g.payload(), "")
+	s = strings.ReplaceAll(s, mStart, "")
+	s = strings.ReplaceAll(s, mEnd, "")
+	if len(s) > 40 {
+		s = strings.ToValidUTF8(s[:40], "")
+	}
+	edge := func() string {
+		r := win + rune(g.r.Intn(96))
+		if !utf8.ValidRune(r) || string(r) == mStart || string(r) == mEnd {
+			r = 'q'
+		}
+		return string(r)
+	}
+	switch g.r.Intn(4) {
+	case 0:
+		return s + edge()
+	case 1:
+		return edge() + s
+	case 2:
+		return edge()
+	}
+	return s
+}
+
+func (g *gen) c11Conserve() Op {
+	win := rune([]int{0x20, 0x80, 0xa0, 0x100, 0x370, 0x2000, 0x2030, 0x3040, 0xfff0, 0x1f600}[g.r.Intn(10)])
+	if g.chance(0.5) {
+		win = rune(0x80 + g.r.Intn(0x3000))
+	}
+	n := 2 + g.r.Intn(7)
+	var ss []Step
+	for i := 0; i < n; i++ {
+		switch g.r.Intn(10) {
+		case 0, 1:
+			ss = append(ss, Step{A: "ss", S: Str(g.cleanPiece(win))})
+		case 2, 3:
+			ss = append(ss, Step{A: "us", S: Str(g.cleanPiece(win))})
+		case 4:
+			ss = append(ss, Step{A: "sbs", S: Str(g.cleanPiece(win))})
+		case 5:
+			ss = append(ss, Step{A: "ubs", S: Str(g.cleanPiece(win))})
+		case 6:
+			ss = append(ss, Step{A: "sr", I: int64(win) + int64(g.r.Intn(96))})
+		case 7:
+			ss = append(ss, Step{A: "ur", I: int64(win) + int64(g.r.Intn(96))})
+		case 8:
+			ss = append(ss, Step{A: []string{"sy", "uy"}[g.r.Intn(2)], I: int64(32 + g.r.Intn(95))})
+		default:
+			ss = append(ss, Step{A: "si", I: int64(g.r.Intn(5000))})
+		}
+	}
+	// marker runes written as runes are escaped, not conserved: keep them out
+	for i := range ss {
+		if (ss[i].A == "sr" || ss[i].A == "ur") && (ss[i].I == 0x2039 || ss[i].I == 0x203a) {
+			ss[i].I = 'm'
+		}
+	}
+	return Op{K: "conserve", N: g.r.Intn(2), S: ss}
+}
+
+func (g *gen) c11RuneSweep() Op {
+	starts := []int{0, 0x80, 0x700, 0x2000, 0xd700, 0xd800, 0xdc00, 0xdf80, 0xff00, 0x10ff80, 0x110000 - 128, -256, 0x7fffff00}
+	st := starts[g.r.Intn(len(starts))]
+	if g.chance(0.6) {
+		st = g.r.Intn(0x30000)
+	}
+	n := 256
+	if g.thorough {
+		n = 2048
+	}
+	return Op{K: "runesweep", N: st, A: []Val{{K: "int", I: int64(n)}}}
+}
+
 // domain-edge ops for the first sentence of C11 (sampled, see DESIGN §5.1)
 func (g *gen) c11Edge() Op {
+	switch g.r.Intn(5) {
+	case 0, 1:
+		return g.c11Conserve()
+	case 2:
+		return g.c11RuneSweep()
+	}
 	runes := []int64{-1, -2, 0xd800, 0xdbff, 0xdc00, 0xdfff, 0x110000, 0x7fffffff, -0x80000000, 0, 0x10ffff, 0xfffd, 0x2039, 0x203a}
 	ru := runes[g.r.Intn(len(runes))]
 	if g.chance(0.4) {
